@@ -49,6 +49,23 @@ func aOf(rr dns.RR) (a [4]byte, ok bool) {
 	return a, true
 }
 
+// pipeVerdict / ptrVerdict summarise one judgement for callers that keep their
+// own per-entry counters (the wire part).
+type pipeVerdict struct {
+	Judged     bool
+	Synth      int // synthesised AAAA records in the reply
+	Reasons    []string
+	Gray       string
+	Violations []string
+}
+
+type ptrVerdict struct {
+	Judged        bool
+	Translated    bool
+	MustTranslate bool
+	Violations    []string
+}
+
 var dnssecFailureEDE = map[uint16]bool{5: true, 6: true, 7: true, 8: true, 9: true, 10: true, 11: true, 12: true}
 
 // EDE codes on a SERVFAIL whose classification as "DNSSEC validation failure"
@@ -133,8 +150,10 @@ func forbidReasons(c *pipeCase, m *model, af aFacts) (reasons []string, gray str
 	switch s.Mark {
 	case "cached":
 		add("cached-failure-marker")
-	case "local-attempt", "local-deadline":
-		add("request-local-failure")
+	default:
+		if strings.HasPrefix(s.Mark, "local-") {
+			add("request-local-failure")
+		}
 	}
 	if s.Rcode == dns.RcodeSuccess {
 		for _, rr := range parseRRs(s.Answer) {
@@ -149,7 +168,7 @@ func forbidReasons(c *pipeCase, m *model, af aFacts) (reasons []string, gray str
 	switch {
 	case a.NoReply:
 		add("a-no-response")
-	case a.Mark == "local-attempt" || a.Mark == "local-deadline":
+	case strings.HasPrefix(a.Mark, "local-"):
 		add("a-request-local-failure")
 	case a.Mark == "cached":
 		add("a-cached-failure")
@@ -191,22 +210,27 @@ func prefixLenOf(m *model, a [16]byte) (refPrefix, bool) {
 	return refPrefix{}, false
 }
 
-func judgePipe(r *vlib.Run, e *env, c *pipeCase, o outcome) {
+func judgePipe(r *vlib.Run, e *env, c *pipeCase, o outcome) (v pipeVerdict) {
 	m := e.m
+	cnt := func(k string, n int) { r.Count(c.Ctr+k, n) }
+	viol := func(sig, what string, _ any) {
+		v.Violations = append(v.Violations, sig)
+		r.Violation(c.SigPrefix+sig, what, c.replayCase())
+	}
 	if len(o.errs) > 0 {
 		r.Inconclusive("harness: stub error: " + o.errs[0])
-		return
+		return v
 	}
 	if o.panicV != nil {
-		r.Violation("panic/dns64-pipeline", fmt.Sprintf("pipeline panicked: %v", o.panicV), c)
-		return
+		viol("panic/dns64-pipeline", fmt.Sprintf("pipeline panicked: %v", o.panicV), c)
+		return v
 	}
 	r.Eval(1)
-	r.Count("pipe_triples", 1)
+	cnt("pipe_triples", 1)
 	reply := o.reply
 	if reply == nil {
-		r.Count("pipe_no_reply_written", 1)
-		return
+		cnt("pipe_no_reply_written", 1)
+		return v
 	}
 	sent := o.sent["client"]
 	type ak struct {
@@ -253,12 +277,13 @@ func judgePipe(r *vlib.Run, e *env, c *pipeCase, o outcome) {
 
 	af := readA(c)
 	reasons, gray := forbidReasons(c, m, af)
+	v.Judged, v.Synth, v.Reasons, v.Gray = true, len(synth), reasons, gray
 	if c.Resp.EDNS {
 		for _, code := range c.Resp.EDE {
 			if c.Resp.Rcode == dns.RcodeServerFailure {
-				r.DistinctIn("ede_codes_with_servfail", fmt.Sprint(code))
+				r.DistinctIn(c.Ctr+"ede_codes_with_servfail", fmt.Sprint(code))
 			} else {
-				r.DistinctIn("ede_codes_with_other_rcode", fmt.Sprint(code))
+				r.DistinctIn(c.Ctr+"ede_codes_with_other_rcode", fmt.Sprint(code))
 			}
 		}
 	}
@@ -267,19 +292,19 @@ func judgePipe(r *vlib.Run, e *env, c *pipeCase, o outcome) {
 		if cl.Internal && cl.Qtype == dns.TypeA {
 			aLookups++
 			if !cl.RD {
-				r.Count("a_lookup_rd0", 1)
+				cnt("a_lookup_rd0", 1)
 			}
 		}
 	}
-	r.Count("a_lookups", aLookups)
+	cnt("a_lookups", aLookups)
 
 	// "AAAA-filtered reply never carries AD"
 	if stripped > 0 {
-		r.Count("filtered_replies", 1)
+		cnt("filtered_replies", 1)
 		if kept > 0 {
-			r.Count("filtered_replies_aaaa_kept", 1)
+			cnt("filtered_replies_aaaa_kept", 1)
 			if c.Resp.AD {
-				r.Count("filtered_replies_aaaa_kept_upstream_ad", 1)
+				cnt("filtered_replies_aaaa_kept_upstream_ad", 1)
 			}
 		}
 		if kept == 0 && len(synth) == 0 && c.Resp.AD {
@@ -289,10 +314,10 @@ func judgePipe(r *vlib.Run, e *env, c *pipeCase, o outcome) {
 			if rs, _ := forbidReasons(c, m, readA(c)); len(rs) > 0 {
 				why = rs[len(rs)-1]
 			}
-			r.Count("filtered_all_stripped_no_synth_upstream_ad", 1)
-			r.Count("filtered_all_stripped_no_synth_upstream_ad/"+why, 1)
+			cnt("filtered_all_stripped_no_synth_upstream_ad", 1)
+			cnt("filtered_all_stripped_no_synth_upstream_ad/"+why, 1)
 			if reply.AuthenticatedData {
-				r.Count("filtered_all_stripped_no_synth_reply_ad/"+why, 1)
+				cnt("filtered_all_stripped_no_synth_reply_ad/"+why, 1)
 			}
 		}
 		if reply.AuthenticatedData && len(synth) == 0 {
@@ -300,56 +325,56 @@ func judgePipe(r *vlib.Run, e *env, c *pipeCase, o outcome) {
 			if kept == 0 {
 				sig = "ad/set-on-filtered/all-stripped-no-synthesis"
 			}
-			r.Violation(sig, fmt.Sprintf("reply to %s AAAA has %d downstream AAAA record(s) filtered out (%d kept) and still carries AD=1", c.Qname, stripped, kept), c)
+			viol(sig, fmt.Sprintf("reply to %s AAAA has %d downstream AAAA record(s) filtered out (%d kept) and still carries AD=1", c.Qname, stripped, kept), c)
 		}
 	}
 
 	if len(synth) == 0 {
 		switch {
 		case len(reasons) > 0:
-			r.Count("nosynth_with_reason", 1)
+			cnt("nosynth_with_reason", 1)
 			for _, rs := range reasons {
-				r.Count("nosynth_reason_"+rs, 1)
+				cnt("nosynth_reason_"+rs, 1)
 			}
 			if len(reasons) == 1 {
-				r.Count("nosynth_sole_"+reasons[0], 1)
+				cnt("nosynth_sole_"+reasons[0], 1)
 				if reasons[0] == "dnssec-failure" && len(c.Resp.EDE) > 1 && !dnssecFailureEDE[c.Resp.EDE[0]] {
-					r.Count("nosynth_sole_dnssec-failure_ede_not_first", 1)
+					cnt("nosynth_sole_dnssec-failure_ede_not_first", 1)
 				}
 				if reasons[0] == "a-all-excluded-under-wkp" && m.defaultedWKP {
-					r.Count("nosynth_sole_a-all-excluded-under-defaulted-wkp", 1)
+					cnt("nosynth_sole_a-all-excluded-under-defaulted-wkp", 1)
 				}
-				r.Distinct("nosynth/" + reasons[0] + "/" + c.Resp.Shape + "/" + c.A.Shape)
+				r.Distinct(c.Ctr + "nosynth/" + reasons[0] + "/" + c.Resp.Shape + "/" + c.A.Shape)
 			}
 			if aLookups > 0 && !strings.HasPrefix(reasons[0], "a-") {
-				r.Count("a_lookup_issued_although_aaaa_side_forbids", 1)
+				cnt("a_lookup_issued_although_aaaa_side_forbids", 1)
 			}
 		case gray != "":
-			r.Count("nosynth_open_"+gray, 1)
+			cnt("nosynth_open_"+gray, 1)
 		default:
 			// allowed, downstream had translatable A records, yet nothing
 			// synthesised: not forbidden by the statement; recorded.
-			r.Count("nosynth_unexplained", 1)
+			cnt("nosynth_unexplained", 1)
 			r.Sample(map[string]any{"kind": "nosynth-unexplained", "case": c})
 		}
-		return
+		return v
 	}
 
 	// ---- a synthesised reply
-	r.Count("synth_replies", 1)
+	cnt("synth_replies", 1)
 	if len(reasons) > 0 {
-		r.Violation("synth/forbidden/"+reasons[0],
+		viol("synth/forbidden/"+reasons[0],
 			fmt.Sprintf("%d AAAA record(s) synthesised for %s although: %s", len(synth), c.Qname, strings.Join(reasons, ", ")), c)
-		return
+		return v
 	}
 	if gray != "" {
-		r.Count("synth_open_"+gray, 1)
+		cnt("synth_open_"+gray, 1)
 	}
 	if reply.AuthenticatedData {
-		r.Violation("ad/set-on-synthesised", fmt.Sprintf("synthesised reply for %s carries AD=1 (downstream AAAA AD=%v, A AD=%v)", c.Qname, c.Resp.AD, c.A.AD), c)
+		viol("ad/set-on-synthesised", fmt.Sprintf("synthesised reply for %s carries AD=1 (downstream AAAA AD=%v, A AD=%v)", c.Qname, c.Resp.AD, c.A.AD), c)
 	}
 	if c.Resp.AD || c.A.AD {
-		r.Count("synth_replies_downstream_ad", 1)
+		cnt("synth_replies_downstream_ad", 1)
 	}
 
 	// negative TTL of the AAAA response (RFC 2308 §5): only for a real NODATA
@@ -375,40 +400,40 @@ func judgePipe(r *vlib.Run, e *env, c *pipeCase, o outcome) {
 	lens := map[int]bool{}
 	for _, rr := range synth {
 		addr, _ := aaaaOf(rr)
-		r.Count("synth_records", 1)
+		cnt("synth_records", 1)
 		p, in := prefixLenOf(m, addr)
 		if !in {
-			r.Violation("synth/aaaa-outside-configured-prefixes",
+			viol("synth/aaaa-outside-configured-prefixes",
 				fmt.Sprintf("reply for %s contains AAAA %s that the downstream never sent and that lies in no legal configured Pref64 %v", c.Qname, netip.AddrFrom16(addr), m.prefixes), c)
 			continue
 		}
 		v4, _, conf := refExtract(p.Addr, p.Bits, addr)
 		_, isA := af.addrs[v4]
 		if !conf || !isA || refEmbed(p.Addr, p.Bits, v4) != addr {
-			r.Violation(fmt.Sprintf("embed/pipeline-not-rfc6052/len%d", p.Bits),
+			viol(fmt.Sprintf("embed/pipeline-not-rfc6052/len%d", p.Bits),
 				fmt.Sprintf("synthesised %s under %s is not the RFC 6052 embedding of any A record of the target (reads back as %s, conformant=%v; A records %v)",
 					netip.AddrFrom16(addr), p, v4s(v4), conf, addrList(af)), c)
 			continue
 		}
 		if m.skipA(p, v4) == 1 {
-			r.Violation("synth/excluded-ipv4-under-wkp",
+			viol("synth/excluded-ipv4-under-wkp",
 				fmt.Sprintf("synthesised %s embeds %s, which is in the IPv4 exclusion set of the well-known prefix", netip.AddrFrom16(addr), v4s(v4)), c)
 		}
 		seen[pair{p.String(), v4}] = true
 		lens[p.Bits] = true
-		r.Count(fmt.Sprintf("synth_pairs_len%d", p.Bits), 1)
+		cnt(fmt.Sprintf("synth_pairs_len%d", p.Bits), 1)
 		if !strings.EqualFold(rr.Hdr.Name, af.terminal) {
-			r.Violation("owner/not-terminal-name",
+			viol("owner/not-terminal-name",
 				fmt.Sprintf("synthesised AAAA owned by %q; the queried name after the alias chain is %q", rr.Hdr.Name, af.terminal), c)
 		}
 		if !strings.EqualFold(af.terminal, c.Qname) {
-			r.Count("synth_records_behind_alias_chain", 1)
+			cnt("synth_records_behind_alias_chain", 1)
 		}
 		if aTTL := af.addrs[v4]; rr.Hdr.Ttl > aTTL {
-			r.Violation("ttl/exceeds-a-ttl", fmt.Sprintf("synthesised AAAA TTL %d > TTL %d of A %s", rr.Hdr.Ttl, aTTL, v4s(v4)), c)
+			viol("ttl/exceeds-a-ttl", fmt.Sprintf("synthesised AAAA TTL %d > TTL %d of A %s", rr.Hdr.Ttl, aTTL, v4s(v4)), c)
 		}
 		if negKnown {
-			r.Count("synth_records_with_negative_ttl_bound", 1)
+			cnt("synth_records_with_negative_ttl_bound", 1)
 			if rr.Hdr.Ttl > neg {
 				sig := "ttl/exceeds-negative-ttl"
 				switch {
@@ -417,7 +442,7 @@ func judgePipe(r *vlib.Run, e *env, c *pipeCase, o outcome) {
 				case soaMin == 0:
 					sig += "/soa-minimum-zero"
 				}
-				r.Violation(sig, fmt.Sprintf("synthesised AAAA TTL %d > AAAA negative TTL %d (SOA TTL %d, MINIMUM %d); A TTL %d",
+				viol(sig, fmt.Sprintf("synthesised AAAA TTL %d > AAAA negative TTL %d (SOA TTL %d, MINIMUM %d); A TTL %d",
 					rr.Hdr.Ttl, neg, soaTTL, soaMin, af.addrs[v4]), c)
 			}
 		}
@@ -431,30 +456,31 @@ func judgePipe(r *vlib.Run, e *env, c *pipeCase, o outcome) {
 				missing = append(missing, fmt.Sprintf("%s→%s", v4s(v4), p))
 			}
 			if m.skipA(p, v4) == 1 {
-				r.Count("synth_pairs_skipped_excluded_under_wkp", 1)
+				cnt("synth_pairs_skipped_excluded_under_wkp", 1)
 				if m.defaultedWKP {
-					r.Count("synth_pairs_skipped_excluded_under_defaulted_wkp", 1)
+					cnt("synth_pairs_skipped_excluded_under_defaulted_wkp", 1)
 				}
 			}
 		}
 	}
 	if len(missing) > 0 {
 		sort.Strings(missing)
-		r.Violation("synth/missing-a-prefix-pair", fmt.Sprintf("synthesised reply lacks the embedding of: %s", strings.Join(missing, " ")), c)
+		viol("synth/missing-a-prefix-pair", fmt.Sprintf("synthesised reply lacks the embedding of: %s", strings.Join(missing, " ")), c)
 	}
 	for l := range lens {
-		r.Count(fmt.Sprintf("synth_replies_len%d", l), 1)
+		cnt(fmt.Sprintf("synth_replies_len%d", l), 1)
 	}
 	if m.defaultedWKP {
-		r.Count("synth_replies_defaulted_wkp", 1)
+		cnt("synth_replies_defaulted_wkp", 1)
 	}
 	if len(m.prefixes) > 1 {
-		r.Count("synth_replies_multi_prefix", 1)
+		cnt("synth_replies_multi_prefix", 1)
 	}
-	r.Distinct(fmt.Sprintf("synth/%v/%s/%s/%d", sortedLens(lens), c.Resp.Shape, c.A.Shape, len(af.addrs)))
-	if r.Counter("synth_replies") <= 2 {
-		r.Sample(map[string]any{"kind": "synthesised", "qname": c.Qname, "prefixes": c.Cfg.Prefixes, "a": c.A.Answer, "reply_answer": rrStrings(reply.Answer)})
+	r.Distinct(c.Ctr + fmt.Sprintf("synth/%v/%s/%s/%d", sortedLens(lens), c.Resp.Shape, c.A.Shape, len(af.addrs)))
+	if r.Counter(c.Ctr+"synth_replies") <= 2 {
+		r.Sample(map[string]any{"kind": c.Ctr + "synthesised", "qname": c.Qname, "prefixes": c.Cfg.Prefixes, "a": c.A.Answer, "reply_answer": rrStrings(reply.Answer)})
 	}
+	return v
 }
 
 func sortedLens(m map[int]bool) []int {
@@ -483,24 +509,30 @@ func rrStrings(rrs []dns.RR) []string {
 }
 
 // judgePTR: ip6.arpa PTR queries.
-func judgePTR(r *vlib.Run, e *env, c *pipeCase, o outcome) {
+func judgePTR(r *vlib.Run, e *env, c *pipeCase, o outcome) (v ptrVerdict) {
 	m := e.m
+	cnt := func(k string, n int) { r.Count(c.Ctr+k, n) }
+	viol := func(sig, what string, _ any) {
+		v.Violations = append(v.Violations, sig)
+		r.Violation(c.SigPrefix+sig, what, c.replayCase())
+	}
 	if len(o.errs) > 0 {
 		r.Inconclusive("harness: stub error: " + o.errs[0])
-		return
+		return v
 	}
 	if o.panicV != nil {
-		r.Violation("panic/dns64-pipeline", fmt.Sprintf("pipeline panicked on PTR %s: %v", c.Qname, o.panicV), c)
-		return
+		viol("panic/dns64-pipeline", fmt.Sprintf("pipeline panicked on PTR %s: %v", c.Qname, o.panicV), c)
+		return v
 	}
 	r.Eval(1)
-	r.Count("ptr_cases", 1)
-	r.Count("ptr_gen_"+c.PTRGen, 1)
+	cnt("ptr_cases", 1)
+	cnt("ptr_gen_"+c.PTRGen, 1)
 	reply := o.reply
 	if reply == nil {
-		r.Count("ptr_no_reply_written", 1)
-		return
+		cnt("ptr_no_reply_written", 1)
+		return v
 	}
+	v.Judged = true
 	addr, wellFormed := refParseIP6Arpa(c.Qname)
 	var (
 		inPrefix bool
@@ -540,65 +572,72 @@ func judgePTR(r *vlib.Run, e *env, c *pipeCase, o outcome) {
 	}
 	if cname == nil {
 		mustTranslate := len(forbid) == 0 && inPrefix && conf && m.skipA(pfx, v4) == 0
+		v.MustTranslate = mustTranslate
 		switch {
+		case mustTranslate && c.Shadowed:
+			// an empty zone (as112, RFC 6303) of the pipeline under test owns
+			// this ip6.arpa name and answers ahead of dns64
+			cnt("ptr_shadowed_by_empty_zone", 1)
 		case mustTranslate && c.PTR.Mark == "local-attempt":
 			// the in-addr.arpa chase hit the request tree's attempt limit: a
 			// marked SERVFAIL instead of an answer is not a mapping error
-			r.Count("ptr_chase_attempt_limit", 1)
+			cnt("ptr_chase_attempt_limit", 1)
 		case mustTranslate:
-			r.Violation("ptr/not-translated",
+			viol("ptr/not-translated",
 				fmt.Sprintf("PTR %s is the ip6.arpa name of %s = RFC 6052 embedding of %s in %s, but the reply has no CNAME to %s",
 					c.Qname, netip.AddrFrom16(addr), v4s(v4), pfx, refInAddrArpa(v4)), c)
 		default:
-			r.Count("ptr_passthrough", 1)
+			cnt("ptr_passthrough", 1)
 			switch {
 			case len(forbid) > 0:
-				r.Count("ptr_passthrough_"+forbid[0], 1)
+				cnt("ptr_passthrough_"+forbid[0], 1)
 			case !wellFormed:
-				r.Count("ptr_passthrough_malformed_name", 1)
+				cnt("ptr_passthrough_malformed_name", 1)
 			case !inPrefix:
-				r.Count("ptr_passthrough_outside_prefixes", 1)
+				cnt("ptr_passthrough_outside_prefixes", 1)
 			case !conf:
-				r.Count("ptr_passthrough_nonconformant_address", 1)
+				cnt("ptr_passthrough_nonconformant_address", 1)
 			default:
-				r.Count("ptr_passthrough_excluded_or_open_ipv4_under_wkp", 1)
+				cnt("ptr_passthrough_excluded_or_open_ipv4_under_wkp", 1)
 			}
 		}
-		return
+		return v
 	}
-	r.Count("ptr_translated", 1)
+	cnt("ptr_translated", 1)
+	v.Translated = true
 	if len(forbid) > 0 {
-		r.Violation("ptr/translated-when-forbidden/"+forbid[0], fmt.Sprintf("PTR %s translated although: %s", c.Qname, strings.Join(forbid, ", ")), c)
-		return
+		viol("ptr/translated-when-forbidden/"+forbid[0], fmt.Sprintf("PTR %s translated although: %s", c.Qname, strings.Join(forbid, ", ")), c)
+		return v
 	}
 	if reply.AuthenticatedData {
-		r.Violation("ad/set-on-ptr-translation", fmt.Sprintf("PTR %s answered with a synthesised CNAME and AD=1", c.Qname), c)
+		viol("ad/set-on-ptr-translation", fmt.Sprintf("PTR %s answered with a synthesised CNAME and AD=1", c.Qname), c)
 	}
 	t4, ok := refParseInAddr(cname.Target)
 	switch {
 	case !ok:
-		r.Violation("ptr/target-not-in-addr-arpa", fmt.Sprintf("PTR %s redirected to %q", c.Qname, cname.Target), c)
+		viol("ptr/target-not-in-addr-arpa", fmt.Sprintf("PTR %s redirected to %q", c.Qname, cname.Target), c)
 	case !wellFormed || !inPrefix:
-		r.Violation("ptr/translated-unmappable",
+		viol("ptr/translated-unmappable",
 			fmt.Sprintf("PTR %s (well-formed=%v, inside a configured Pref64=%v) redirected to %s", c.Qname, wellFormed, inPrefix, cname.Target), c)
 	case t4 != v4:
-		r.Violation(fmt.Sprintf("ptr/wrong-ipv4/len%d", pfx.Bits),
+		viol(fmt.Sprintf("ptr/wrong-ipv4/len%d", pfx.Bits),
 			fmt.Sprintf("PTR %s (%s in %s) redirected to %s; the embedded IPv4 address is %s", c.Qname, netip.AddrFrom16(addr), pfx, cname.Target, v4s(v4)), c)
 	case !conf:
-		r.Count("ptr_translated_nonconformant_address", 1)
+		cnt("ptr_translated_nonconformant_address", 1)
 	default:
 		if refEmbed(pfx.Addr, pfx.Bits, t4) != addr {
-			r.Violation("ptr/roundtrip", "re-embedding the redirect target does not give the queried address", c)
+			viol("ptr/roundtrip", "re-embedding the redirect target does not give the queried address", c)
 		}
-		r.Count(fmt.Sprintf("ptr_translated_len%d", pfx.Bits), 1)
+		cnt(fmt.Sprintf("ptr_translated_len%d", pfx.Bits), 1)
 		if m.skipA(pfx, v4) == 1 {
-			r.Count("ptr_translated_excluded_ipv4_under_wkp", 1)
+			cnt("ptr_translated_excluded_ipv4_under_wkp", 1)
 		}
 		if nPTR > 0 {
-			r.Count("ptr_translated_with_chased_ptr", 1)
+			cnt("ptr_translated_with_chased_ptr", 1)
 		}
-		r.Distinct(fmt.Sprintf("ptr/%d/%s/%s", pfx.Bits, c.PTR.Shape, c.Resp.Shape))
+		r.Distinct(c.Ctr + fmt.Sprintf("ptr/%d/%s/%s", pfx.Bits, c.PTR.Shape, c.Resp.Shape))
 	}
+	return v
 }
 
 // judgeConfig: illegal prefixes refused, legal ones compiled, in order.
